@@ -257,9 +257,7 @@ Lemma u_is_negative_sval a : wf62 a -> a <> [] -> u_is_negative a = (sval a <? 0
 Proof.
   intros H Hn. rewrite u_is_negative_spec by assumption. pose proof (uval_bounds a H) as B.
   unfold sval. cbv zeta.
-  destruct (Z.leb_spec (M62 (length a)) (2 * uval a)); destruct (Z.ltb_spec (2 * uval a) (M62 (length a))); try lia.
-  - symmetry. apply Z.ltb_lt. lia.
-  - symmetry. apply Z.ltb_ge. lia.
+  destruct (Z.leb_spec (M62 (length a)) (2 * uval a)); destruct (Z.ltb_spec (2 * uval a) (M62 (length a))); lia.
 Qed.
 
 (* ---- arithmetic shift right by one limb ---- *)
@@ -268,7 +266,9 @@ Proof.
   intros Hx Hr Hn. pose proof (uval_bounds r Hr) as B.
   destruct (M62_half (length r)) as (h & Eh & Hh); [destruct r; [contradiction | cbn; lia]|].
   unfold sval. cbv zeta. cbn [uval length]. rewrite M62_S. pfacts.
-  destruct (Z.ltb_spec (2 * uval r) (M62 (length r))); destruct (Z.ltb_spec (2 * (x + P62 * uval r)) (P62 * M62 (length r))); try ring; exfalso; nia.
+  destruct (Z.ltb_spec (2 * uval r) (M62 (length r))); destruct (Z.ltb_spec (2 * (x + P62 * uval r)) (P62 * M62 (length r))); try ring; exfalso.
+  - assert (P62 * uval r <= P62 * (h - 1)) by (apply Z.mul_le_mono_nonneg_l; lia). rewrite Eh in *. lia.
+  - assert (P62 * h <= P62 * uval r) by (apply Z.mul_le_mono_nonneg_l; lia). rewrite Eh in *. lia.
 Qed.
 Lemma sval_sign_ext r : wf62 r -> r <> [] ->
   sval (r ++ [if u_is_negative r then MASK62 else 0]) = sval r.
@@ -300,15 +300,15 @@ Proof.
       destruct (Z.ltb_spec (2 ^ 61 - 1) x).
       * destruct (Z.ltb_spec (2 * MASK62) P62); [unfold MASK62, P62 in *; lia|].
         destruct (Z.ltb_spec (2 * x) P62); [unfold P62 in *; lia|].
-        symmetry. apply (Z.div_unique _ _ _ x); [lia | unfold MASK62; ring].
+        apply (Z.div_unique_pos _ _ _ x); [lia | unfold MASK62, P62; ring].
       * destruct (Z.ltb_spec (2 * 0) P62); [|lia].
         destruct (Z.ltb_spec (2 * x) P62); [|unfold P62 in *; lia].
         symmetry. apply Z.div_small. lia.
     + assert (Hn : y :: r' <> []) by discriminate.
       assert (EN : u_is_negative (x :: y :: r') = u_is_negative (y :: r')) by reflexivity.
       rewrite EN, sval_sign_ext by assumption.
-      rewrite sval_cons by assumption.
-      symmetry. apply (Z.div_unique _ _ _ x); [lia | ring].
+      rewrite (sval_cons x (y :: r')) by assumption.
+      apply (Z.div_unique_pos _ _ _ x); [lia | ring].
 Qed.
 
 (* ---- comparisons and constants ---- *)
